@@ -8,7 +8,8 @@ AUTHENTICATE, SETEVENTS, TAKEOWNERSHIP, RESETCONF and the 650 STATUS_CLIENT even
 real parser), time is the reactor's ``Clock``.
 
 Case (driver "launch"):
-  {"cfg": {"datadir": "none"|"existing"|"new",  "timeout": null|int,  "kill_on_stderr": bool,
+  {"cfg": {"hold_all": bool (every command after the STATUS_CLIENT subscription is answered only by an "own" action),
+           "datadir": "none"|"existing"|"new",  "timeout": null|int,  "kill_on_stderr": bool,
            "socks": null|int,  "control": null|int|"unix",  "non_anon": bool,  "auto": bool,
            "stdout": 0|1|2,  "progress_cb": bool,  "stdio": bool},
    "sched": [action, ...]}
@@ -225,6 +226,14 @@ class _Conn(object):
         if word == "SETEVENTS":
             self.subscribed = "STATUS_CLIENT" in line.split(" ")[1:]
             return NotImplemented
+        if self.world.cfg.get("hold_all") and self.subscribed:
+            # hold_all: once the connection is subscribed, every further command is answered only by an
+            # ["own", ...] action, so that events can arrive between any two of Tor's answers
+            self.outstanding.append(line)
+            return None
+        return self._normal(line, word)
+
+    def _normal(self, line, word):
         if word == "GETCONF":
             keys = line.split(" ")[1:]
             if not keys:
@@ -477,7 +486,15 @@ class _World(object):
             if cands and not self.exited:
                 c = cands[int(action[2]) % len(cands)]
                 line = c.outstanding.pop(0)
-                if action[1] == "ack":
+                word = line.split(" ")[0].upper()
+                is_own = word == "TAKEOWNERSHIP" or (word == "RESETCONF" and "__OwningControllerProcess" in line)
+                if action[1] == "ack" and not is_own:
+                    # a held non-ownership command (hold_all): Tor's normal answer
+                    r = c._normal(line, word)
+                    if r is NotImplemented:
+                        r = c.srv.builtin(line)
+                    c.emit(r if isinstance(r, bytes) else wire.encode_reply(r))
+                elif action[1] == "ack":
                     c.emit(wire.encode_reply(wire.ok()))
                 else:
                     self.labels.add("ownership-rejected")
@@ -840,6 +857,7 @@ def configs():
         "stdout": st.sampled_from([0, 0, 0, 1, 1, 1, 2]),
         "progress_cb": st.booleans(),
         "stdio": st.booleans(),
+        "hold_all": st.sampled_from([False, False, True]),
     })
 
 
@@ -942,7 +960,7 @@ def cases(draw):
                 pending -= 1
                 if how == "ok":
                     conns += 1
-                    own_left += 2
+                    own_left += 8 if cfg.get("hold_all") else 2
                 else:
                     attempted = False
                     conns += 1 if how == "authfail" else 0
